@@ -90,4 +90,17 @@ CLAIMS = {
    note="Symbolic signatures (unforgeability of Ed25519/RSA assumed; the harness states which key signed each token's current fields), CIDs as identities (SHA-256 collision freedom), hypothesis Hres (the proof resolver returns the delegation asked for), model starts at decoded tokens, caller-supplied functions are mirrored Go/Gallina pairs. Requires the fix commits listed in KNOWN_FINDINGS.txt. No axioms (Closed under the global context). Known finding key layered-dag (KNOWN_FINDINGS.txt): not repaired because memoisation would have to thread a per-Access cache through exported functions.",
    technique='Coq refutation by witness (vm_compute) + exact verification-count correspondence + bound oracle with known-finding key',
    ref='5/C19'),
+ "C14": dict(
+   text="Coq theorems: signature framing round trip/injectivity/totality; did Decode/Parse/String/Bytes round trips for every "
+        "DID the library can return (all strings, any bytes) and injectivity of String; Encode/Decode and Format/Parse round "
+        "trips of Ed25519 and RSA signers/verifiers on the exact tag/length checks; signer, verifier and DID-parsed verifier "
+        "agree; Wrap changes only the DID; Verify accepts iff the frame carries the verifier's own algorithm code and its own "
+        "key's signature of exactly that message (never another key, algorithm or message). Model compared on every run with "
+        "real keys: all (verifier, key, message) triples, code substitutions, mutated frames and encodings, a DID grammar, "
+        "arbitrary signature bytes.",
+   note="Partial: unforgeability/uniqueness of Ed25519 and RSA PKCS#1 v1.5 signatures is a symbolic (Dolev-Yao) Section "
+        "hypothesis; base58/multibase/x509 are oracles with round-trip laws checked dynamically. No axioms. Requires "
+        "fixes/C14_did_key_alias.diff (did:key alias: a parsed DID whose String() re-parses to an error/another DID).",
+   technique="Coq proof (byte-level framings + symbolic crypto) + differential correspondence with real Ed25519/RSA keys",
+   ref="5/C14"),
 }
